@@ -7,8 +7,9 @@ RabbitMQ: unacknowledged) - the worker holds nothing any more.
 One window is a recorded finding (`stop_inside_consume_tail`): consume() is wrapped by the middleware wrapper, which runs it
 in a child task and emits `after_consume` before returning; a stop that cancels the queue loop in exactly that tail - the
 child has taken the message out of the consumer's buffer, the loop has not received it - leaves the message in nobody's
-hands.  It is recognised by its signature: the message was never executed and the inner consume() returned it at most two
-loop iterations before the stop request or at most five after it (while the cancellation of the loop was on its way)."""
+hands.  It is recognised by its signature: the message was never executed and it is the LAST message the inner consume() of
+some consumer returned while that consumer's queue loop has received fewer messages than its consume() returned (the loop's
+receipts are counted at its first action on a message, the look-up of the actor)."""
 import asyncio
 import signal
 
@@ -17,13 +18,28 @@ from ..common import Failure
 from ..vloop import run_virtual
 
 S = 1_000_000
-SCENARIOS = [([0.0, 0.05, 0.3], 0.01), ([0.0], 0.0), ([0.2, 0.0, 0.05], 0.1)]
+# (durations by job, graceful time, number of queues, messages_limit, tasks_limit, number of jobs)
+SCENARIOS = [([0.0, 0.05, 0.3], 0.01, 1, None, 2, 4), ([0.0], 0.0, 1, None, 2, 4), ([0.2, 0.0, 0.05], 0.1, 1, None, 2, 4),
+             ([0.0, 0.05, 0.3], 0.01, 2, None, 3, 8), ([0.05], 0.0, 2, 1, 2, 4), ([0.0, 0.05, 0.3], 0.01, 2, 2, 3, 6), ([0.05], 0.0, 2, 2, 3, 6)]
 
 
-async def one_run(loop, which, k, durs, graceful):
+class _LogDict(dict):
+    """The actors mapping handed to a queue loop: its first action on a received message is the look-up of the actor."""
+
+    def __init__(self, d, note):
+        super().__init__(d)
+        self.note = note
+
+    def __getitem__(self, k):
+        self.note()
+        return super().__getitem__(k)
+
+
+async def one_run(loop, which, k, durs, graceful, n_queues=1, limit=None, tasks_limit=2, n_jobs=4):
     from repid import BasicConverter, Connection, InMemoryBucketBroker, Job, Queue, Router, Worker
+    from repid._runner import _Runner
     if which == "redis":
-        w = redisrun.RedisWorld([1])
+        w = redisrun.RedisWorld(list(range(1, n_queues + 1)))
     else:
         w = rabbitrun.RabbitWorld()
         from ..fakeamqp import ISSUER
@@ -32,7 +48,14 @@ async def one_run(loop, which, k, durs, graceful):
     conn = Connection(mb, InMemoryBucketBroker(), InMemoryBucketBroker(use_result_bucket=True))
     ran: list = []
     handed: dict = {}            # message -> loop iteration at which the INNER consume() returned it
+    returned: dict = {}          # consumer -> [number of messages its inner consume() returned, the last of them]
+    received: dict = {}          # consumer -> number of messages its queue loop received
     it0 = loop.iteration
+    orig_rc = _Runner._run_consumer
+
+    async def rc(self_, consumer, actors):
+        cid = id(consumer)
+        return await orig_rc(self_, consumer, _LogDict(actors, lambda: received.__setitem__(cid, received.get(cid, 0) + 1)))
 
     orig_get_consumer = mb.get_consumer
 
@@ -44,6 +67,9 @@ async def one_run(loop, which, k, durs, graceful):
             async def logged(*aa, **kk):
                 msg = await inner(*aa, **kk)
                 handed[int(msg[0].id_[1:])] = loop.iteration - it0
+                r = returned.setdefault(id(cons), [0, None])
+                r[0] += 1
+                r[1] = int(msg[0].id_[1:])
                 return msg
             wrapper.fn = logged
         return cons
@@ -59,29 +85,38 @@ async def one_run(loop, which, k, durs, graceful):
         if jid % 3 == 0:
             raise ValueError("fails")
         return jid
-    router.actor(act, name="a1", queue="q1", converter=BasicConverter)
-    q = Queue("q1", _connection=conn)
-    await q.declare()
-    for i in range(1, 5):
-        await Job("a1", queue=q, args={"jid": i}, retries=1, id_=f"m{i}", _connection=conn).enqueue()
-    worker = Worker(routers=[router], _connection=conn, handle_signals=[signal.SIGINT], graceful_shutdown_time=graceful, tasks_limit=2)
+    for qn in range(1, n_queues + 1):
+        router.actor(act, name=f"a{qn}", queue=f"q{qn}", converter=BasicConverter)
+        await Queue(f"q{qn}", _connection=conn).declare()
+    for i in range(1, n_jobs + 1):
+        qn = 1 + (i % n_queues)
+        await Job(f"a{qn}", queue=Queue(f"q{qn}", _connection=conn), args={"jid": i}, retries=1, id_=f"m{i}", _connection=conn).enqueue()
+    kw = {} if limit is None else {"messages_limit": limit}
+    worker = Worker(routers=[router], _connection=conn, handle_signals=[signal.SIGINT], graceful_shutdown_time=graceful,
+                    tasks_limit=tasks_limit, **kw)
     fired: dict = {}
 
+    t0 = loop.time()
+
     def hook(lp):
-        if "it" not in fired and lp.iteration - it0 >= k:
+        # (an idle worker makes no loop iterations: the k-th one would only come with the 30 s guard below - not a stop point)
+        if "it" not in fired and lp.iteration - it0 >= k and lp.time() - t0 < 20:
             h = lp.signal_handlers.get(int(signal.SIGINT))
             if h is not None:
                 fired["it"] = lp.iteration - it0
                 h()
     loop.step_hook = hook
     err = None
+    _Runner._run_consumer = rc
     try:
         await asyncio.wait_for(worker.run(), 30)
     except asyncio.TimeoutError:
         err = "timeout"
     except Exception as e:  # noqa: BLE001
         err = repr(e)
-    loop.step_hook = None
+    finally:
+        _Runner._run_consumer = orig_rc
+        loop.step_hook = None
     await asyncio.sleep(0.3)
     for _ in range(80):
         await asyncio.sleep(0)
@@ -93,8 +128,10 @@ async def one_run(loop, which, k, durs, graceful):
         pl = {i: [x[0] for x in p] for i, p in st["places"].items()}
         inflight = [i for i, p in pl.items() if "unacked" in p]
     dup = [i for i, p in pl.items() if len(p) != 1]
-    return {"k": k, "durs": durs, "graceful": graceful, "err": err, "fired": fired.get("it"), "inflight": inflight, "dup": dup,
-            "places": pl, "ran": list(ran), "handed": dict(handed)}
+    not_received = sorted(r[1] for cid, r in returned.items() if r[0] > received.get(cid, 0))
+    return {"k": k, "durs": durs, "graceful": graceful, "queues": n_queues, "messages_limit": limit, "tasks_limit": tasks_limit, "jobs": n_jobs,
+            "err": err, "fired": fired.get("it"), "inflight": inflight, "dup": dup,
+            "places": pl, "ran": list(ran), "handed": dict(handed), "not_received": not_received}
 
 
 def worker_stop_cuts(ctx, res) -> None:
@@ -105,11 +142,12 @@ def worker_stop_cuts(ctx, res) -> None:
 
     async def main(loop):
         loop.set_exception_handler(lambda l, c: None)
-        for which in ("redis", "rabbit"):
-            for durs, graceful in SCENARIOS:
-                for k in range(0, ctx.scale(90, 160), 1):
+        # the window in which the worker consumes starts later on RabbitMQ (its start-up takes some ninety iterations)
+        for which, k0 in (("redis", 0), ("rabbit", 70)):
+            for durs, graceful, nq, limit, tl, nj in SCENARIOS:
+                for k in range(k0, k0 + ctx.scale(90, 180), 1):
                     loop.max_iterations = loop.iteration + 400_000
-                    o = await one_run(loop, which, k, durs, graceful)
+                    o = await one_run(loop, which, k, durs, graceful, nq, limit, tl, nj)
                     o["broker"] = which
                     outs.append(o)
     try:
@@ -121,14 +159,14 @@ def worker_stop_cuts(ctx, res) -> None:
             res.count("worker_stop_runs_where_the_stop_came_after_the_end")      # the worker was idle: the hook never fired
             continue
         res.count("worker_stop_cut_runs")
-        res.add_case(f"wstop:{o['broker']}:{o['durs']}:{o['graceful']}:{o['k']}:{sorted(o['places'].items())}", bool(o["ran"]))
+        res.add_case(f"wstop:{o['broker']}:{o['durs']}:{o['graceful']}:{o['queues']}:{o['messages_limit']}:{o['k']}:{sorted(o['places'].items())}", bool(o["ran"]))
         if o["err"]:
             res.failures.append(Failure("worker_on_broker_did_not_stop", f"{o['broker']}: run() did not return after the stop at iteration {o['k']}: {o['err']}",
                                         {"worker_stop_cut": {k: v for k, v in o.items() if k != "places"}}, None))
             continue
         if not o["inflight"] and not o["dup"]:
             continue
-        tail = [m for m in o["inflight"] if m not in o["ran"] and m in o["handed"] and -5 <= o["fired"] - o["handed"][m] <= 2]
+        tail = [m for m in o["inflight"] if m not in o["ran"] and m in o["not_received"]]
         if o["inflight"] and tail == o["inflight"] and not o["dup"]:
             res.failures.append(Failure("stop_inside_consume_tail", f"{o['broker']}: stop at loop iteration {o['fired']}, the inner consume() had returned "
                                         f"message {tail} at iteration {[o['handed'][m] for m in tail]} and the queue loop had not received it yet: it stays in "
